@@ -34,6 +34,7 @@ type op struct {
 	peerAware bool // message implements Copy/SetPeerId
 	viaErr    bool // rclose realised as a handler error instead of EOF
 	none      bool // plan: no stream can be opened
+	negCap    bool // add: pass a negative queue size (the model sees 0: both mean "default")
 	tags      []int
 	peers     []int
 }
@@ -73,6 +74,8 @@ func (o op) line() string {
 		return fmt.Sprintf("%s %d", o.kind, o.sid)
 	case "gate":
 		return fmt.Sprintf("gate %d %s", o.sid, b01(o.gated))
+	case "cblock":
+		return fmt.Sprintf("cblock %d %s", o.sid, b01(o.gated))
 	case "drel":
 		return fmt.Sprintf("drel %d", o.tid)
 	}
@@ -90,6 +93,9 @@ func (o op) text() string {
 	}
 	if o.viaErr {
 		s += " #handler-error"
+	}
+	if o.negCap {
+		s += " #negative-queue-size"
 	}
 	return s
 }
@@ -175,15 +181,19 @@ func (c *caseRun) exec(o op) string {
 	case "add":
 		f := w.newFake(o.peer, o.capRaw, o.gated, o.failAt, true)
 		c.sh[f.sid] = &shadow{tags: append([]int{}, o.tags...)}
+		qs := o.capRaw
+		if o.negCap && qs == 0 {
+			qs = -3
+		}
 		if o.incoming {
 			go func() {
 				defer func() { recover() }()
-				_ = w.pool.ReadStream(f, o.capRaw, tagNames(o.tags)...)
+				_ = w.pool.ReadStream(f, qs, tagNames(o.tags)...)
 			}()
 			return fmt.Sprintf("ok:%d", f.sid)
 		}
 		return w.call(func() string {
-			if err := w.pool.AddStream(f, o.capRaw, tagNames(o.tags)...); err != nil {
+			if err := w.pool.AddStream(f, qs, tagNames(o.tags)...); err != nil {
 				return "err:other"
 			}
 			return fmt.Sprintf("ok:%d", f.sid)
@@ -317,6 +327,16 @@ func (c *caseRun) exec(o op) string {
 		if !o.gated && f.parked && f.gate != nil {
 			close(f.gate)
 			f.gate = nil
+		}
+		return "ok"
+	case "cblock":
+		f := w.fakes[o.sid-1]
+		w.mu.Lock()
+		defer w.mu.Unlock()
+		f.closeBlocks = o.gated
+		if !o.gated && f.closeGate != nil {
+			close(f.closeGate)
+			f.closeGate = nil
 		}
 		return "ok"
 	case "rclose":
@@ -498,7 +518,7 @@ func (c *caseRun) step(o op) bool {
 	if !ok {
 		// the pool did not reach the predicted state: is a stream that has ended still in the pool?
 		for _, f := range w.fakes {
-			if f.ended != "" && !f.hooked {
+			if f.ended != "" && !f.hooked && !f.closeBlocks {
 				stale = fmt.Sprintf("stream %d ended (%s) but the pool never removed it: its index entries and tags stay, later sends still target it", f.sid, f.ended)
 				break
 			}
@@ -524,7 +544,9 @@ func (c *caseRun) step(o op) bool {
 		c.violate("streampool.oracle.panic", fmt.Sprintf("%s panicked: %s", o.line(), res))
 	case res == "GOEXIT" || fatal != "":
 		c.violate("streampool.oracle.indexes", fmt.Sprintf("%s reached log.Fatal (%q): the indexes are inconsistent", o.line(), fatal))
-	case strings.Contains(gotT, "HANG") || strings.Contains(gotT, "PANIC") || strings.Contains(gotT, "GOEXIT"):
+	case strings.Contains(gotT, "HANG"):
+		c.violate("streampool.oracle.nonblocking", fmt.Sprintf("Streams(tag) after %s did not return within %v (%s): a pool call waits on a stream (e.g. on its Close()) or on the pool mutex held meanwhile", o.line(), hangTimeout, gotT))
+	case strings.Contains(gotT, "PANIC") || strings.Contains(gotT, "GOEXIT"):
 		c.violate("streampool.oracle.indexes", fmt.Sprintf("Streams(tag) after %s: %s", o.line(), gotT))
 	}
 	for _, n := range notes {
